@@ -8,6 +8,7 @@ import (
 	"encoding/pem"
 	"fmt"
 	"os"
+	"reflect"
 
 	"github.com/pkg/errors"
 
@@ -890,6 +891,12 @@ func ProvisionerToCertificates(p *linkedca.Provisioner) (provisioner.Interface, 
 	details := p.Details.GetData()
 	if details == nil {
 		return nil, errors.New("provisioner does not have any details")
+	}
+	// The details must be the ones of the provisioner's type: a record with
+	// the type of one provisioner and the details of another is stored under
+	// its type and cannot be read back.
+	if want, err := admin.UnmarshalProvisionerDetails(p.Type, []byte("{}")); err != nil || reflect.TypeOf(want.GetData()) != reflect.TypeOf(details) {
+		return nil, fmt.Errorf("provisioner details do not match the provisioner type %s", p.Type)
 	}
 
 	options := optionsToCertificates(p)
